@@ -125,6 +125,6 @@ InvAnswers == \E v \in {View(chain)} : \A c \in Cand(chain) :
                  LET a == Answer(st, c, Len(chain)) IN (RejectV(v, c) => a # "ok") /\ (AcceptV(v, c) => a = "ok")
 InvStay   == stayok
 InvProp   == propok
-\* information: DeleteBlock can return early on the unchanged code (two transactions of one block naming the same hash)
+\* information: in GCMode "strict" DeleteBlock returns early (two transactions of one block naming the same hash)
 NoGCError == gcErrs = 0
 =============================================================================
